@@ -59,6 +59,12 @@ NEG = [
     ("KMZ0", "MC_KMZ0_neg_nowrap", "WindowIsCircular"),
     ("KMZ0", "MC_KMZ0_neg_onesided", None),
     ("KMZ0", "MC_KMZ0_neg_wide", "WindowIsCircular"),
+    ("Profiles", "MC_Profiles_neg_nopsi", "WindAtZm"),
+    ("Profiles", "MC_Profiles_neg_step", "GridIndex"),
+    ("Profiles", "MC_Profiles_neg_norm", "WindAtZm"),
+    ("Geo", "MC_Geo_neg_cos", "RoundTripLL"),
+    ("Geo", "MC_Geo_neg_axes", None),
+    ("Geo", "MC_Geo_neg_fill", None),
 ]
 
 
